@@ -359,3 +359,29 @@ benign('C08', 'flags sorted with keyword', LD, "imageflags = imageflags.sort_val
 benign('C08', 'shift via matmul', LD, "shift = imageflags[['bx', 'by', 'bz']].values.dot(system.box.vects)", "shift = np.dot(imageflags[['bx', 'by', 'bz']].values, system.box.vects)")
 benign('C08', 'dump bounds two-arg min', LDD, "ylo = ylo - min((0.0, yz))", "ylo = ylo - min(0.0, yz)")
 benign('C08', 'poscar scale commuted', LP, "pos = pos * box_scale", "pos = box_scale * pos")
+
+# ------------------------------------------------------------------ C11
+ECF = 'atomman/core/ElasticConstants.py'
+mutant('C11', 'Cijkl getter wrong Voigt index', ECF, "[[c[3,0],c[3,5],c[3,4]], [c[3,5],c[3,1],c[3,3]], [c[3,4],c[3,3],c[3,2]]],\n                          [[c[2,0]", "[[c[3,0],c[4,5],c[3,4]], [c[3,5],c[3,1],c[3,3]], [c[3,4],c[3,3],c[3,2]]],\n                          [[c[2,0]", 'VOIGT')
+mutant('C11', 'Cij9 wrong row', ECF, "[c[4,0],c[4,1],c[4,2],c[4,3],c[4,4],c[4,5],c[4,3],c[4,4],c[4,5]],\n                         [c[5,0],c[5,1],c[5,2],c[5,3],c[5,4],c[5,5],c[5,3],c[5,4],c[5,5]]])", "[c[5,0],c[5,1],c[5,2],c[5,3],c[5,4],c[5,5],c[5,3],c[5,4],c[5,5]],\n                         [c[4,0],c[4,1],c[4,2],c[4,3],c[4,4],c[4,5],c[4,3],c[4,4],c[4,5]]])", 'VOIGT')
+mutant('C11', 'Cijkl setter reads wrong shear pair', ECF, "[c[1,2,0,0], c[1,2,1,1], c[1,2,2,2], c[1,2,1,2], c[1,2,0,2], c[1,2,0,1]],", "[c[1,2,0,0], c[1,2,1,1], c[1,2,2,2], c[1,2,1,2], c[1,2,0,1], c[1,2,0,2]],", 'VOIGT')
+mutant('C11', 'Sijkl getter divides rows only', ECF, "        s[:,3:] = s[:,3:]/2.\n", "", 'COMPLIANCE')
+mutant('C11', 'Sijkl setter weight 2 for shear-shear', ECF, "4.*s[1,2,1,2]", "2.*s[1,2,1,2]", 'COMPLIANCE')
+mutant('C11', 'transform uses transposed T on one side', ECF, "Q = np.einsum('km,ln->mnkl', T, T)", "Q = np.einsum('mk,ln->mnkl', T, T)", 'TRANSFORM')
+mutant('C11', 'transform cleanup drops abs', ECF, "C[abs(C / C.max()) < tol] = 0.0", "C[C / C.max() < tol] = 0.0", 'CLEANUP')
+mutant('C11', 'hexagonal C66 from C11+C12', ECF, "                c11 = kwargs.pop('C11')\n                c12 = kwargs.pop('C12')\n                c66 = (c11 - c12) / 2\n                # Check if redundant C66 is given\n                if 'C66' in kwargs:\n                    assert np.isclose(c66, kwargs['C66'])\n                    c66 = kwargs.pop('C66')\n            elif 'C11' in kwargs and 'C66' in kwargs:\n                c11 = kwargs.pop('C11')\n                c66 = kwargs.pop('C66')\n                c12 = c11 - 2 * c66\n            elif 'C12' in kwargs and 'C66' in kwargs:\n                c12 = kwargs.pop('C12')\n                c66 = kwargs.pop('C66')\n                c11 = 2 * c66 + c12\n            else:\n                assert False\n        except:\n            raise TypeError('hexagonal", "                c11 = kwargs.pop('C11')\n                c12 = kwargs.pop('C12')\n                c66 = (c11 + c12) / 2\n                # Check if redundant C66 is given\n                if 'C66' in kwargs:\n                    assert np.isclose(c66, kwargs['C66'])\n                    c66 = kwargs.pop('C66')\n            elif 'C11' in kwargs and 'C66' in kwargs:\n                c11 = kwargs.pop('C11')\n                c66 = kwargs.pop('C66')\n                c12 = c11 - 2 * c66\n            elif 'C12' in kwargs and 'C66' in kwargs:\n                c12 = kwargs.pop('C12')\n                c66 = kwargs.pop('C66')\n                c11 = 2 * c66 + c12\n            else:\n                assert False\n        except:\n            raise TypeError('hexagonal", 'CRYSTAL')
+mutant('C11', 'rhombohedral sign of c14 in row 2', ECF, "[c12, c11, c13,-c14,-c15, 0.0],", "[c12, c11, c13, c14,-c15, 0.0],", 'CRYSTAL')
+mutant('C11', 'rhombohedral C56 entry', ECF, "[c15,-c15, 0.0, 0.0, c44, c14],", "[c15,-c15, 0.0, 0.0, c44,-c14],", 'CRYSTAL')
+mutant('C11', 'tetragonal C26 sign', ECF, "[c12, c11, c13, 0.0, 0.0,-c16],", "[c12, c11, c13, 0.0, 0.0, c16],", 'CRYSTAL')
+mutant('C11', 'monoclinic C46 misplaced', ECF, "[0.0, 0.0, 0.0, c44, 0.0, c46],\n                             [c15, c25, c35, 0.0, c55, 0.0],\n                             [0.0, 0.0, 0.0, c46, 0.0, c66]])", "[0.0, 0.0, 0.0, c44, c46, 0.0],\n                             [c15, c25, c35, c46, c55, 0.0],\n                             [0.0, 0.0, 0.0, 0.0, 0.0, c66]])", 'CRYSTAL')
+mutant('C11', 'isotropic (C11,nu) arm', ECF, "c44 = c11 * (1 - 2 * nu) / (2 * (1 - nu))", "c44 = c11 * (1 - 2 * nu) / (2 * (1 + nu))", 'ISOTROPIC')
+mutant('C11', 'isotropic (C12,E) root sign', ECF, "c44 = (E - 3 * c12 + R) / 4", "c44 = (E - 3 * c12 - R) / 4", 'ISOTROPIC')
+mutant('C11', 'isotropic (E,K) arm', ECF, "c44 = 3 * K * E / (9 * K - E)", "c44 = 3 * K * E / (9 * K + E)", 'ISOTROPIC')
+mutant('C11', 'isotropic (C44,K) arm', ECF, "c12 = K - 2 * c44 / 3", "c12 = K - 2 * c44", 'ISOTROPIC')
+mutant('C11', 'normalized rhombohedral C15 sign', ECF, "c_dict['C15'] = (c[0,4] - c[1,4] - c[3,5]) / 3", "c_dict['C15'] = (c[0,4] - c[1,4] + c[3,5]) / 3", 'NORMALIZED')
+mutant('C11', 'normalized hexagonal C12', ECF, "c_dict['C12'] = (c[0,1] + (c[0,0] - 2 * c[5,5])) / 2\n            c_dict['C13'] = (c[0,2] + c[1,2]) / 2\n            c_dict['C44'] = (c[3,3] + c[4,4]) / 2\n        \n        elif crystal_system == 'tetragonal':", "c_dict['C12'] = (c[0,1] + (c[0,0] - c[5,5])) / 2\n            c_dict['C13'] = (c[0,2] + c[1,2]) / 2\n            c_dict['C44'] = (c[3,3] + c[4,4]) / 2\n        \n        elif crystal_system == 'tetragonal':", 'NORMALIZED')
+mutant('C11', 'Reuss shear coefficient', ECF, "return 15 / (4 * (s[0,0]", "return 15 / (3 * (s[0,0]", 'MODULI')
+mutant('C11', 'Voigt bulk divisor', ECF, "+ 2 * (c[0,1] + c[1,2] + c[0,2])) / 9", "+ 2 * (c[0,1] + c[1,2] + c[0,2])) / 6", 'MODULI')
+benign('C11', 'hexagonal c66 as half difference', ECF, "c12 = c11 - 2 * c66", "c12 = c11 - c66 - c66")
+benign('C11', 'transform einsum with renamed indices', ECF, "C = np.einsum('ghij,ghmn,mnkl->ijkl', Q, self.Cijkl, Q)", "C = np.einsum('abij,abcd,cdkl->ijkl', Q, self.Cijkl, Q)")
+benign('C11', 'isotropic (C11,K) rewritten', ECF, "c44 = 3 * (c11 - K) / 4", "c44 = 0.75 * (c11 - K)")
